@@ -4,9 +4,11 @@ import (
 	"fmt"
 	"io"
 	"log"
+	"math"
 	"math/rand"
 	"sort"
 	"sync"
+	"time"
 
 	"github.com/sirupsen/logrus"
 
@@ -62,6 +64,55 @@ func capacity(tier string) []job {
 		}
 		out = append(out, mk("1100-cancel-some", 3500, []hx.T{createN(1100, 1, true, 7), stall(30),
 			cancel(0), cancel(500), cancel(1099)}))
+	}
+	return out
+}
+
+// ---- the extremes of the duration dimension (nanoseconds, any int64), one-shot and repeating:
+// what is due fires - never early, the repeating ones again and again (one firing per round: the
+// owner is the harness) -, what is "never" (100 years .. math.MaxInt64) stays armed through real
+// waits, delivers nothing, and can be cancelled; a bystander keeps firing.
+func createNs(ns int64, rep bool, a int64, prog ...any) hx.T {
+	return hx.C("OCreateNs", ns, rep, a, append([]any{}, prog...))
+}
+
+func extremes() []job {
+	const ms = int64(time.Millisecond)
+	const max = int64(math.MaxInt64)
+	durs := []struct {
+		name string
+		ns   int64
+	}{
+		{"0", 0}, {"-1ns", -1}, {"-5ms", -5 * ms}, {"minInt64", math.MinInt64}, {"1ns", 1}, {"999999ns", ms - 1}, {"1ms", ms},
+		{"1ms+1ns", ms + 1}, {"2.5ms", 2*ms + ms/2}, {"1000s-1ns", farD - 1}, {"1000s", farD}, {"100years", 100 * 365 * 24 * 3600 * 1000 * ms},
+		{"max-1ms", max - ms}, {"max-1ms+1ns", max - ms + 1}, {"max-999999ns", max - (ms - 1)},
+		{"max-999998ns", max - (ms - 2)}, {"max-1ns", max - 1}, {"max", max},
+	}
+	var out []job
+	for _, d := range durs {
+		if d.ns == farD-1 {
+			continue // 1000 s less 1 ns would be waited for
+		}
+		for _, rep := range []bool{false, true} {
+			for _, pan := range []bool{false, true} {
+				var prog []any
+				if pan {
+					prog = []any{"APanic"}
+				}
+				name := fmt.Sprintf("ns=%s,rep=%v,panic=%v", d.name, rep, pan)
+				add := func(sc string, ops ...hx.T) {
+					out = append(out, job{"extreme", ops, []string{"ex-" + sc, name}})
+				}
+				tm := createNs(d.ns, rep, 7, prog...)
+				by := create(2, true, 9)
+				add("rounds", tm, by, settle(0), doAll, settle(0), doAll, settle(3), doAll, settle(6))
+				add("wait-then-cancel", tm, by, settle(3), doAll, stall(5), settle(0), cancel(0), doAll, settle(0), doAll, settle(6))
+				add("cancel-at-once", tm, cancel(0), by, settle(2), doAll, settle(6))
+				add("created-late", create(1, false, 8, hx.C("ACancel", 5)), by, settle(0), doAll,
+					create(1, false, 6, hx.C("ACancel", 0)), tm, settle(0), doAll, settle(6))
+				add("stop", tm, by, settle(2), stop, doAll, settle(6))
+			}
+		}
 	}
 	return out
 }
@@ -384,6 +435,7 @@ func Run(cfg *hx.Config) error {
 		}
 	} else {
 		jobs = append(capacity(cfg.Tier), placements()...)
+		jobs = append(jobs, extremes()...)
 		depth := 3
 		if cfg.Tier == "thorough" {
 			depth = 4
